@@ -262,23 +262,11 @@ Proof.
   destruct (getters_exact s HX k) as [-> ->]. cbn [bind]. eauto.
 Qed.
 
-Definition sp_fold (s : gstate) (paths : list (list nat)) : res (list spath) :=
-  let a := gr_arena (gs_graph s) in
-  fold_right (fun p acc =>
-            do r <- acc;
-            do t <- render_search_text a p;
-            do target <- last_id p;
-            do rk <- node_rank s target;
-            do key <- graph_node_key (nav_fuel a) a target;
-            Ok (SP t rk key (Nat.eqb (length p) 1)
-                   (match node_line_range s target with Some r => fst r | None => 0 end) p :: r))
-          (Ok []) paths.
-
-Lemma sp_fold_ok s qs : Inv s ->
+Lemma sp_entries_ok s qs : Inv s ->
   (forall p, In p qs -> p <> [] /\ Forall (lv (arena_of s)) p) ->
-  exists l0, sp_fold s qs = Ok l0 /\ forall x, In x l0 -> In (sp_ids x) qs.
+  exists l0, sp_entries s qs = Ok l0 /\ forall x, In x l0 -> In (sp_ids (fst x)) qs.
 Proof.
-  intros HI. pose proof (Inv_arena_ok s HI) as Hok. unfold arena_of in *. unfold sp_fold.
+  intros HI. pose proof (Inv_arena_ok s HI) as Hok. unfold arena_of in *. unfold sp_entries.
   set (a := gr_arena (gs_graph s)) in *. cbv zeta.
   induction qs as [|p r IH]; intros HP'.
   - exists []. split; [reflexivity | intros x []].
@@ -287,7 +275,7 @@ Proof.
     destruct (HP' p (or_introl eq_refl)) as [Hne Hlv]. rewrite Forall_forall in Hlv.
     destruct (texts_of_ok a p) as (ts & Ets).
     { intros i Hi. destruct (Hlv i Hi) as (n & Hn & _). eapply ArenaFacts.get_lt; eauto. }
-    unfold render_search_text. rewrite Ets. cbn [bind].
+    rewrite Ets. cbn [bind].
     destruct (last_id_ok p Hne) as (t & -> & Ht). cbn [bind].
     destruct (node_rank_ok s t HI (Hlv t Ht)) as (rk & ->). cbn [bind].
     pose proof (Hlv t Ht) as Lt. pose proof Lt as (tn & Htn & _). apply ArenaFacts.get_lt in Htn.
@@ -299,10 +287,10 @@ Lemma search_paths_of_ok s ps : Inv s ->
   (forall p, In p ps -> p <> [] /\ Forall (lv (arena_of s)) p) ->
   exists l, search_paths_of s ps = Ok l /\ forall x, In x l -> In (sp_ids x) ps.
 Proof.
-  intros HI HP. destruct (sp_fold_ok s ps HI HP) as (l0 & E & L).
-  change (search_paths_of s ps) with (do l <- sp_fold s ps; Ok (stable_sort sp_le l)).
-  rewrite E. cbn [bind]. eexists. split; [reflexivity|].
-  intros x Hx. apply L. eapply Permutation_in; [apply Permutation_sym, stable_sort_perm | exact Hx].
+  intros HI HP. destruct (sp_entries_ok s ps HI HP) as (l0 & E & L).
+  unfold search_paths_of. rewrite E. cbn [bind]. eexists. split; [reflexivity|].
+  intros x Hx. apply in_map_iff in Hx as (e & <- & He). apply L.
+  eapply Permutation_in; [apply Permutation_sym, stable_sort_perm | exact He].
 Qed.
 
 Lemma heading_lv s x : PathsFacts.heading s x -> lv (arena_of s) x.
